@@ -39,7 +39,7 @@ var scenKeys = [][]byte{[]byte("k1"), []byte("k2"), []byte("k3")}
 
 func drawFoCfg(c *Case) foCfg {
 	cfg := foCfg{
-		variant:    c.Pick("variant", 3),
+		variant:    c.Pick("variant", nVariants),
 		syncUpdate: c.Bool("SyncUpdate"),
 		syncRead:   c.Bool("SyncRead"),
 		failHard:   c.Bool("FailHard"),
